@@ -129,11 +129,17 @@ OptRule(sn, pol, tok) ==
 
 Tokens == {"last", "within", "tag"} \cup PK \cup {WTok(p) : p \in PK}
 
-Req(sn, pol) == UNION {ReqRule(sn, pol, tok) : tok \in Tokens}
-Opt(sn, pol) == UNION {OptRule(sn, pol, tok) : tok \in Tokens}
+\* the rules a policy switches on (a rule that is off keeps nothing)
+Active(pol) ==
+  (IF pol.last # 0 THEN {"last"} ELSE {}) \cup (IF pol.within.on THEN {"within"} ELSE {})
+  \cup (IF pol.tags # <<>> THEN {"tag"} ELSE {})
+  \cup {p \in PK : CountOf(pol, p) # 0} \cup {WTok(p) : p \in {q \in PK : WinOf(pol, q).on}}
 
-\* the rules that justify keeping position i
-Applicable(sn, pol, i) == {tok \in Tokens : i \in ReqRule(sn, pol, tok) \cup OptRule(sn, pol, tok)}
+\* rule -> positions demanded / additionally permitted
+ReqMap(sn, pol) == [tok \in Active(pol) |-> ReqRule(sn, pol, tok)]
+OptMap(sn, pol) == [tok \in Active(pol) |-> OptRule(sn, pol, tok)]
+Req(sn, pol) == UNION {ReqRule(sn, pol, tok) : tok \in Active(pol)}
+Opt(sn, pol) == UNION {OptRule(sn, pol, tok) : tok \in Active(pol)}
 
 (* ------------------------------------------------------------------ *)
 (* "Raising any count or duration, or adding a tag set"                *)
@@ -174,18 +180,24 @@ PartitionOK(r) ==
 IdsAt(r, P) == {r.sn[i].id : i \in P}
 PosOf(r, id) == CHOOSE i \in 1..r.n : r.sn[i].id = id
 
-KeepOK(r) ==
-  /\ IdsAt(r, Req(r.sn, r.pol)) \subseteq SetOf(r.keep)
-  /\ SetOf(r.keep) \subseteq IdsAt(r, Req(r.sn, r.pol) \cup Opt(r.sn, r.pol))
-
-ReasonsOK(r) ==
-  /\ {r.reasons[k].id : k \in DOMAIN r.reasons} = SetOf(r.keep)    \* a reason entry for each kept one, none for others
-  /\ \A k \in DOMAIN r.reasons :
-       /\ r.reasons[k].m # <<>>
-       /\ r.reasons[k].id \in 1..r.n =>
-            SetOf(r.reasons[k].m) \subseteq Applicable(r.sn, r.pol, PosOf(r, r.reasons[k].id)) \cup {"other"}
-
-ApplyOK(r) == ListOK(r) /\ PartitionOK(r) /\ KeepOK(r) /\ ReasonsOK(r)
+ApplyOK(r) ==
+  /\ ListOK(r) /\ PartitionOK(r)
+  /\ LET RM  == ReqMap(r.sn, r.pol)
+         OM  == OptMap(r.sn, r.pol)
+         req == UNION {RM[tok] : tok \in DOMAIN RM}
+         opt == UNION {OM[tok] : tok \in DOMAIN OM}
+         \* the rules that justify keeping position i
+         App(i) == {tok \in DOMAIN RM : i \in RM[tok] \cup OM[tok]}
+     IN \* exactly the documented snapshots are kept
+        /\ IdsAt(r, req) \subseteq SetOf(r.keep)
+        /\ SetOf(r.keep) \subseteq IdsAt(r, req \cup opt)
+        \* a reason entry for each kept snapshot (none for others); every reason given names a rule
+        \* that really selects the snapshot ("other" = a text the driver could not classify)
+        /\ {r.reasons[k].id : k \in DOMAIN r.reasons} = SetOf(r.keep)
+        /\ \A k \in DOMAIN r.reasons :
+             /\ r.reasons[k].m # <<>>
+             /\ r.reasons[k].id \in 1..r.n =>
+                  SetOf(r.reasons[k].m) \subseteq App(PosOf(r, r.reasons[k].id)) \cup {"other"}
 
 MonoOK(r) == PolLE(r.pa, r.pb) /\ SetOf(r.ka) \subseteq SetOf(r.kb)
 
